@@ -55,7 +55,7 @@ def has(b, *acts):
     return any(s["a"] in acts for s in b["steps"])
 
 
-def mk_cases(behs, mode, idseed, idmax, seed, client_share=3, start=0, policy="None", secmode="None"):
+def mk_cases(behs, mode, idseed, idmax, seed, client_share=3, start=0, policy="None", secmode="None", collide=False, ctxdl_share=0):
     """Concretisation choices that are not part of the behaviour: level (uasc channel or the typed
     opcua.Client API; the latter has no per-call timeout and no renewal trigger, so only
     behaviours without those), request-id wrap (counter seeded so that the model's wrap point is
@@ -65,7 +65,10 @@ def mk_cases(behs, mode, idseed, idmax, seed, client_share=3, start=0, policy="N
         n = start + i
         client_ok = mode == "script" and not has(b, "timeout") and not any(s.get("c") == 0 for s in b["steps"] if s["a"] == "call")
         level = "client" if (client_ok and client_share and n % client_share == 0) else "uasc"
-        cases.append({"n": n, "mode": mode, "level": level, "wrap": (n % 2 == 0) and level == "uasc",
+        # further concretisation choices: responses whose ByteString payload needs several chunks
+        # (every 4th case), callers' contexts carrying a deadline far later than the timeout
+        cases.append({"n": n, "mode": mode, "level": level, "wrap": (n % 2 == 0) and level == "uasc" and not collide,
+                      "big": n % 4 == 1, "collide": collide, "ctxdl": bool(ctxdl_share) and n % ctxdl_share == 0,
                       "idseed": idseed, "idmax": idmax, "policy": policy, "secmode": secmode, "beh": b})
     return cases
 
